@@ -156,7 +156,7 @@ pub fn check_value<F: Fam>(reg: &Registry, rep: &mut Report, seed: u64, i: u64, 
             }
         }
     }
-    if !w.c09 {
+    if !w.c09 || schema.encode_only {
         return;
     }
     // ---- C09: round trip, position, borrowing ----------------------------------
